@@ -131,6 +131,36 @@ Theorem C07_multiword_nonvacuous :
                 filter MultiWord.is_mw warns = MultiWord.E (firstn (length MultiWordEx.mw_sh) (MultiWordEx.toks_of MultiWordEx.mw_text)) MultiWordEx.mw_mk.
 Proof. exact MultiWordEx.mw_by_theorem. Qed.
 
+(* ---- RECEIPTS = REWRITES, TEXT LEVEL, for triple-quoted and multi-word string sites (Rt/LexSpell*.v) -------------------------
+   For the printer render_sp (every string site spelled quoted / bare / $VAR / triple-quoted / multi-word per oracle) the
+   whole reader returns d with  reps = RC ts (doc_tq qa qm qi d)  -- exactly one lexer normalization receipt per
+   triple-quoted site, in document order, at the token's line and column, and no other repair -- and
+   filter is_mw warns = E ts (doc5_mk ..)  -- exactly one multi_word_coalesce record per multi-word site; all other
+   warnings are advisory.  The canonical text (the emitter's own spelling) has reps = [] and no multi-word record. *)
+From OV Require Rt.LexSpellText Rt.LexSpell Rt.LexSpellEx Rt.BareWord.
+Theorem C07_text_receipts_are_the_rewrites :
+  forall cls (qa : str -> str -> LexSpellText.spelling) (qm : str -> LexSpellText.spelling) (qi : str -> BareWordParse.strk)
+         numcanon holo_ok strict d,
+    core2_doc d = true -> LexSpellText.sp_safe_doc qa qm qi d = true -> LexSpell.admissible qa qm qi ->
+    MultiWord.nums_ok2_l numcanon ex_idnum (dsections d) -> Forall (MultiWord.field_num_ok numcanon) (dmeta d) ->
+    exists ts tnl teof warns,
+      tokenize cls false (lines_of (LexSpellText.render_sp qa qm qi d)) = LexOk (ts ++ [tnl; teof]) (LexSpellText.RC ts (LexSpellText.doc_tq qa qm qi d)) /\
+      Forall2 tmatch ts (MultiWord.doc5_sh needs_multiline ex_idnum (LexSpellText.qa5 qa) (LexSpellText.qm5 qm) qi d) /\
+      length ts = length (LexSpellText.doc_tq qa qm qi d) /\
+      parse_model cls numcanon holo_ok strict (lines_of (LexSpellText.render_sp qa qm qi d)) = PRDoc d (LexSpellText.RC ts (LexSpellText.doc_tq qa qm qi d)) warns /\
+      Forall MultiWord.advisory5 warns /\
+      filter MultiWord.is_mw warns = MultiWord.E ts (MultiWord.doc5_mk needs_multiline (LexSpellText.qa5 qa) (LexSpellText.qm5 qm) qi d).
+Proof. exact LexSpell.text_render_sp. Qed.
+
+Theorem C07_text_canonical_no_receipts :
+  forall cls numcanon holo_ok strict sp d,
+    BareWordParse.core3_doc d = true -> BareWord.lex_safe3_doc d = true ->
+    MultiWord.nums_ok2_l numcanon ex_idnum (dsections d) -> Forall (MultiWord.field_num_ok numcanon) (dmeta d) ->
+    LexSpellText.render_sp LexSpellText.qa_can LexSpellText.qm_can BareWord.qi_emit d = emit sp d /\
+    (exists warns, parse_model cls numcanon holo_ok strict (lines_of (emit sp d)) = PRDoc d [] warns /\
+                   Forall MultiWord.advisory5 warns /\ filter MultiWord.is_mw warns = []).
+Proof. exact LexSpell.text_canonical_no_receipts. Qed.
+
 (* ---- source-text pins (generated by harness/pinsets.py) ---- *)
 (* every function of these modules is, text for text (comments and docstrings excluded), the one the models of this
    property were written against and validated against: harness/translate/srcdigest_t.py, Src/Pin_*.v *)
